@@ -166,6 +166,40 @@ Theorem C20_pack_roundtrip : forall o, ~ In ch_eq (fst o) -> parse_arg (pack o) 
 Proof. exact parse_pack. Qed.
 Print Assumptions C20_pack_roundtrip.
 
+(* --- the whole command-line path, for ANY -g value: ParseCompactArguments, checkOptions, Pack and
+   the SplitN of HandleOptions compose to HandleOptions on the options checkOptions returns (names
+   never contain '=', so packing loses nothing) *)
+Theorem C20_command_line_handle :
+  forall g, handle_packed (targets g) = handle (targets g) default_cfg.
+Proof. exact command_line_handle. Qed.
+Print Assumptions C20_command_line_handle.
+
+(* hence last-wins holds for what a -g value finally configures *)
+Theorem C20_command_line_last_wins :
+  forall g c, Forall (fun o => documented (fst o)) (targets g) ->
+  handle_packed (targets g) = Ok c -> forall s, get s c = expected default_of s (targets g).
+Proof. exact command_line_last_wins. Qed.
+Print Assumptions C20_command_line_last_wins.
+
+(* nested structs force slim, at full strength and stated on the outcome: whenever the accepted
+   configuration has nested structs on and no option named template was given, the template is slim
+   (C20_nested_forces_slim needed the pre-adaptation state as hypothesis) *)
+Theorem C20_nested_forces_slim_outcome :
+  forall opts c, handle (check_options opts) default_cfg = Ok c ->
+  get_feat ix_nested c = true ->
+  (forall o, In o opts -> fst o <> template_name) ->
+  c_template c = slim /\ get_feat ix_deep_equal c = false.
+Proof. exact nested_forces_slim_outcome. Qed.
+Print Assumptions C20_nested_forces_slim_outcome.
+
+Theorem C20_command_line_nested_forces_slim :
+  forall g c, handle_packed (targets g) = Ok c ->
+  get_feat ix_nested c = true ->
+  (forall o, In o (snd (parse_compact g)) -> fst o <> template_name) ->
+  c_template c = slim /\ get_feat ix_deep_equal c = false.
+Proof. exact command_line_nested. Qed.
+Print Assumptions C20_command_line_nested_forces_slim.
+
 (* --- documentation *)
 Theorem C20_documented_defaults_agree :
   forall n d, In (n, d) readme_options ->
@@ -249,4 +283,11 @@ Proof. vm_compute. intuition. Qed.
 Example C20_example_nested :
   targets (B "go:enable_nested_struct,gen_setter") =
   [(B "enable_nested_struct", []); (B "gen_setter", []); (B "template", B "slim")].
+Proof. vm_compute. reflexivity. Qed.
+
+Example C20_example_command_line_nested :
+  match handle_packed (targets (B "go:gen_setter,enable_nested_struct,gen_deep_equal")) with
+  | Ok c => get_feat ix_nested c && beqb (c_template c) slim && negb (get_feat ix_deep_equal c)
+  | Err _ => false
+  end = true.
 Proof. vm_compute. reflexivity. Qed.
